@@ -97,6 +97,7 @@ FA isect(const FA& a, const FA& b);
 FA reverse(const FA& a);
 FA rename(const FA& a, const std::map<long, long>& m);
 bool is_empty(const FA& a);
+Rel fwd_sim(const FA& a, const std::set<long>& dom);   // greatest forward simulation on dom that respects final states (p <= q: q final if p is, every move of p matched by q)
 bool accepts(const FA& a, const std::vector<std::string>& w);
 
 // ------------------------------------------------------------- independent Timbuk reader (oracles only)
